@@ -151,7 +151,10 @@ def run(ctx):
               ('e(0,H)', [(pt('g1', 0), pt('g2', 1))], True),
               ('e(G,0)', [(pt('g1', 1), pt('g2', 0))], True),
               ('e(aG,H)e(G,-aH)', [(pt('g1', a), pt('g2', 1)), (pt('g1', 1), pt('g2', -a))], True),
-              ('three', [(pt('g1', a), pt('g2', 1)), (pt('g1', b), pt('g2', 1)), (pt('g1', -(a + b)), pt('g2', 1))], True)]
+              ('three', [(pt('g1', a), pt('g2', 1)), (pt('g1', b), pt('g2', 1)), (pt('g1', -(a + b)), pt('g2', 1))], True),
+              ('infinity-first-then-false', [(pt('g1', 0), pt('g2', 7)), (pt('g1', 2), pt('g2', 3))], False),
+              ('infinity-first-then-true', [(pt('g1', 1), pt('g2', 0)), (pt('g1', a), pt('g2', b)), (pt('g1', -a * b), pt('g2', 1))], True),
+              ('infinity-middle', [(pt('g1', a), pt('g2', b)), (pt('g1', 0), pt('g2', 0)), (pt('g1', a * b), pt('g2', 1))], False)]
     if not ctx.quick:
         for _ in range(12):
             x, y, z = rng.randrange(2, 10 ** 6), rng.randrange(2, 10 ** 6), rng.randrange(2, 10 ** 6)
